@@ -148,6 +148,10 @@ def function_term(f: FuncInfo) -> Term:
                         # ``addrs = get_desired_range(addrs)``: rebind the parameter
                         env[tg.id] = expr_term(s.value, f, env, aliases)
                     continue
+                if isinstance(tg, ast.Name) and s.value is not None:
+                    # a local rebound along the way: its value from here on (forward substitution)
+                    env[tg.id] = expr_term(s.value, f, env, aliases)
+                    continue
                 raise OutsideFragment("assignment %s" % ast.unparse(s)[:40])
             if isinstance(s, ast.If) and not s.orelse and len(s.body) == 1 \
                     and isinstance(s.body[0], ast.Return):
@@ -172,13 +176,17 @@ def function_term(f: FuncInfo) -> Term:
             if isinstance(s, ast.For) and isinstance(s.target, ast.Name) and not s.orelse:
                 over = expr_term(s.iter, f, env, aliases)
                 v = s.target.id
-                saved = env.get(v)
+                saved_env = dict(env)
                 env[v] = ("var", v)
                 inner = block(s.body)
-                if saved is None:
-                    env.pop(v, None)
-                else:
-                    env[v] = saved
+                # what the body rebinds is not known after the loop
+                rebound = {t.id for n_ in ast.walk(s) if isinstance(n_, (ast.Assign, ast.AnnAssign, ast.AugAssign))
+                           for t in (n_.targets if isinstance(n_, ast.Assign) else [n_.target])
+                           if isinstance(t, ast.Name)}
+                env.clear()
+                env.update(saved_env)
+                for nm_ in rebound:
+                    env[nm_] = ("unknown", nm_)
                 out.append(("union", over, v, inner))
                 continue
             if isinstance(s, ast.If):
@@ -187,7 +195,7 @@ def function_term(f: FuncInfo) -> Term:
                 t2 = block(s.orelse) if s.orelse else ("empty",)
                 out.append(("if", c, t1, t2))
                 continue
-            if isinstance(s, ast.Pass):
+            if isinstance(s, (ast.Pass, ast.Assert)):
                 continue
             raise OutsideFragment("statement %s" % type(s).__name__)
         if not out:
